@@ -34,6 +34,7 @@ type caseResult struct {
 }
 
 type worker struct {
+	broken    bool // a hang was observed: what follows on these instances would be unreliable
 	id        int
 	rng       *rand.Rand
 	ctx       *corr.Ctx
@@ -87,6 +88,18 @@ func (in *instance) linkedSession(idx int) int {
 // runCase drives one conversation; next yields the following op line given the current view.
 func (w *worker) runCase(cfg Cfg, name string, next func(*view) (string, bool)) caseResult {
 	res := caseResult{name: name, dist: map[string]int{}}
+	if w.broken {
+		res.skipped = true
+		res.dist["skipped-after-hang"]++
+		return res
+	}
+	defer func() {
+		for _, v := range res.viol {
+			if v.Key == "hang" || v.Key == "no-response" || v.Key == "dead-after-case" {
+				w.broken = true
+			}
+		}
+	}()
 	in, err := w.instance(cfg)
 	if err != nil {
 		res.err = err
@@ -212,7 +225,9 @@ func emit(c *corr.Ctx, r caseResult) {
 		c.DistN(k, n)
 	}
 	if r.skipped {
-		c.Dist("exhaustive:skipped(no session to name yet)")
+		if r.dist["skipped-after-hang"] == 0 {
+			c.Dist("exhaustive:skipped(no session to name yet)")
+		}
 		return
 	}
 	for _, v := range r.viol {
@@ -420,4 +435,9 @@ func Run(c *corr.Ctx) {
 		})
 	}
 	runJobs(c, nWorkers, jobs)
+
+	// timing clauses on real (scaled-down) timers: thorough tier only
+	if !c.Quick() || os.Getenv("VERIF_SESS_TIMING") != "" {
+		runTiming(c)
+	}
 }
